@@ -3,14 +3,14 @@
 package main
 
 import (
-	"path/filepath"
-	"os"
 	"bytes"
 	"crypto/sha256"
 	"encoding/hex"
 	"fmt"
 	"net/http"
 	"net/url"
+	"os"
+	"path/filepath"
 	"regexp"
 	"sort"
 	"strings"
